@@ -27,6 +27,7 @@ class EmitPublic(CoreSummaries, Contract):
     props = ['C02', 'C03', 'C16', 'C19']
     flag_present = False
     has_loop = True
+    mode_undecided = False      # True: the node's asynchronous attribute is None (an inner node of a blocking pipeline, or loop= given alone)
     emit_may_raise = True
     assumptions = ('gen.convert_yielded(list of awaitables) is one future that completes when all of them have (tornado, trusted)',
                    'sync(loop, coro_fn) runs coro_fn() on the loop and blocks the calling thread until it has finished, re-raising '
@@ -34,8 +35,9 @@ class EmitPublic(CoreSummaries, Contract):
                    'thread_state is a threading.local(): an object whose attributes are private to the calling thread (trusted)')
 
     def __init__(self):
-        self.name = 'Stream.emit[thread flag %s, %s]' % ('set' if self.flag_present else 'absent',
-                                                         'node has a loop' if self.has_loop else 'no loop')
+        self.name = 'Stream.emit[thread flag %s, %s%s]' % ('set' if self.flag_present else 'absent',
+                                                           'node has a loop' if self.has_loop else 'no loop',
+                                                           ', mode undecided (asynchronous is None)' if self.mode_undecided else '')
         Contract.__init__(self)
 
     def build(self, I):
@@ -46,7 +48,7 @@ class EmitPublic(CoreSummaries, Contract):
         g['sync_calls'] = VTuple([])
         fields = {'__ref__': VRef(z3.Const('self_ref', sym.Obj), 'Stream'), 'current_value': NONE, 'current_metadata': NONE,
                   'loop': VRef(z3.Const('loop', sym.Obj), 'IOLoop') if self.has_loop else NONE,
-                  'asynchronous': VBool(z3.Bool('self_asynchronous')),
+                  'asynchronous': NONE if self.mode_undecided else VBool(z3.Bool('self_asynchronous')),
                   'downstreams': VRef(z3.Const('downstreams', sym.Obj), 'OrderedWeakrefSet'), 'name': NONE}
         selfv = st.new_obj('Stream', fields)
         tfields = {}
@@ -137,6 +139,17 @@ class EmitPublicFlagSet(EmitPublic):
     flag_present = True
 
 
+class EmitPublicModeUndecided(EmitPublic):
+    # a node with a loop whose mode was never decided is NOT asynchronous: its callbacks belong on its loop (sync), not on
+    # whichever thread happens to call emit
+    mode_undecided = True
+
+
+class EmitPublicModeUndecidedFlagSet(EmitPublic):
+    mode_undecided = True
+    flag_present = True
+
+
 class EmitPublicNoLoop(EmitPublic):
     has_loop = False
 
@@ -224,7 +237,7 @@ class EmitBlockingCoroutineResumedFailed(EmitBlockingCoroutine):
     resume_exc = True
 
 
-ALL = [EmitPublic, EmitPublicFlagSet, EmitPublicNoLoop, EmitPublicNoLoopFlagSet,
+ALL = [EmitPublic, EmitPublicFlagSet, EmitPublicModeUndecided, EmitPublicModeUndecidedFlagSet, EmitPublicNoLoop, EmitPublicNoLoopFlagSet,
        EmitBlockingCoroutine, EmitBlockingCoroutineResumed, EmitBlockingCoroutineResumedFailed]
 
 
